@@ -1,16 +1,19 @@
 package sim
 
-import "fmt"
+import (
+	"encoding/json"
+	"fmt"
+)
 
 func init() {
 	cp := corpus("C09")
 	register(&PropDef{
 		ID: "C09", Level: "fault_enumeration", Engine: "fedsim",
 		Rule: "case = one scenario of the side-effect corpus (every wrapped activity type at inbox and outbox, delivery, forwarding, GET) or a generated addressing variant; " +
-			"per case: the fault-free run plus one run per fallible seam call (Database, Transport, NewTransport, callbacks) with that call failing; thorough adds fault pairs and two concurrent requests. " +
+			"per case: the fault-free run plus one run per fallible seam call (Database, Transport, NewTransport, callbacks) with that call failing; the generated part (400 cases in quick, time-boxed in thorough) adds random addressing (same collection twice, collection also as object/target), structure-aware mutations of corpus bodies (id-less objects, emptied members), fault pairs and two concurrent requests. The single-fault space of the corpus is swept completely. " +
 			"A run is non-trivial if it made more than 3 seam calls; distinct = distinct hash of the (task, seam kind, fault, result class) event sequence.",
-		QuickCases: len(cp),
-		Exhaustive: true,
+		QuickCases: len(cp) + 400,
+		Exhaustive: false,
 		Drive: func(c *DriveCtx, r *Rng, k int) {
 			if k < len(cp) {
 				c.singleFaultSweep(cp[k].Make, faultKindFor)
@@ -29,7 +32,26 @@ func init() {
 // collection also used as object/target), fault pairs, two concurrent requests.
 func driveC09Generated(c *DriveCtx, r *Rng, k int) {
 	cp := corpus("C09")
-	switch r.Intn(3) {
+	switch r.Intn(4) {
+	case 3: // unusual-but-decodable inputs: a structure-aware mutation of a corpus request body (members removed, emptied, id-less objects, ...)
+		sc := cp[r.Intn(len(cp))]
+		seed := r.U64()
+		mkSpec := func() *RunSpec {
+			sp := sc.Make()
+			rq := &sp.Requests[0]
+			if rq.Body != nil && rq.Kind != "send" { // Send takes a decoded value
+				if nb, what := mutateSeeded(rq.Body, seed); json.Valid(nb) && nb[0] == '{' {
+					rq.Body = nb
+					sp.Gen += " body:" + what
+				}
+			}
+			return sp
+		}
+		if k%3 == 0 {
+			c.singleFaultSweep(mkSpec, faultKindFor)
+		} else {
+			c.Exec(mkSpec())
+		}
 	case 0: // addressing variants of a forwarding-eligible activity
 		mkSpec := func() *RunSpec {
 			rr := NewRng(r.s)
